@@ -97,7 +97,9 @@ pub fn from_unixtime_us(
     mut args: Args,
     _return_type: &TypeScheme,
 ) -> Result<Value, Box<RuntimeErrorKind>> {
-    let us = quantity_arg!(args).unsafe_value().to_f64() as i64;
+    // The argument is the result of a unit conversion to microseconds and may be off by an
+    // ulp (781022 unix_ms is 781021999.9999999 unix_µs): round instead of truncating.
+    let us = quantity_arg!(args).unsafe_value().to_f64().round() as i64;
 
     let dt = Timestamp::from_microsecond(us)
         .map_err(|_| RuntimeErrorKind::DateTimeOutOfRange)?
